@@ -226,12 +226,25 @@ def c05e(ctx, tu):
         if fn.rec.get("special"):
             continue
         order = []
-        for b, e in sorted(fn.events(), key=lambda be: -be[0]["id"]):
+        for b, e in fn.flow_events():
             if e["e"] == "decl" and "unique_lock<" in e.get("type", ""):
                 order.append("lock")
             if e["e"] == "call" and qe(e) == A["seq_add_last"]:
                 order.append("add" if e.get("args") == [["this"]] else "add?")
         ok = order == ["lock", "add"]
+        if order == ["add"]:
+            # the lock may be taken by add_last itself, around its insertion
+            inner = []
+            for g in tu.find(A["seq_add_last"]):
+                seq = []
+                for b, e in g.flow_events():
+                    if e["e"] == "decl" and "unique_lock<" in e.get("type", ""):
+                        seq.append("lock")
+                    if e["e"] == "call" and qe(e) in (A["push_back"], A["push_front"]):
+                        seq.append("push")
+                inner.append(seq)
+            ok = bool(inner) and all(x == ["lock", "push"] for x in inner)
+            order = ["add", "(lock inside add_last)" if ok else "(no lock)"]
         ctx.ob("C05.e", "trompeloeil::sequence_matcher::sequence_matcher", ok, pattern=fn.pat, unit=tu.name,
                detail="" if ok else "the handle's constructor must register itself (add_last(this)) exactly once, "
                "under the lock; found " + str(order))
